@@ -811,10 +811,87 @@ def gridfun_checks(w, out, n):
                               "what": str(ex)[:100], "data": {"scalar": SCALARS[k][0], "typed": typed}})
 
 
+# ---- grid-function expressions for the correspondence with Algebra/GfLang.v ------------------------------------------------
+def gf_correspondence(w, out, n):
+    r, sp = w.r, w.spaces
+    for q in (0, 1):
+        for u_ in (0, 1):
+            key = (w.sid[q], w.sid[u_])
+            if key not in w.invmass:
+                w.invmass[key] = np.asarray(get_inverse_mass_matrix(sp[q], sp[u_]).to_dense())
+                w.mass[key] = np.asarray(get_mass_matrix(sp[q], sp[u_]).to_dense())
+    specs = []
+    for (s, d, rep, cplx) in [(0, 0, "coef", False), (0, 1, "proj", False), (0, 0, "proj", True), (0, 1, "proj", True),
+                              (0, 1, "coef", False), (1, 1, "proj", False), (1, 0, "proj", False), (2, 2, "coef", False),
+                              (0, 0, "proj", False), (1, 1, "coef", True)]:
+        nd = sp[s].global_dof_count if rep == "coef" else sp[d].global_dof_count
+        v = r.integers(-4, 5, nd).astype(float) + (1j * r.integers(-3, 4, nd) if cplx else 0)
+        specs.append({"space": s, "dual": d, "rep": rep, "vec": v})
+    out["gf_atoms"] = [{"space": w.sid[a["space"]], "dual": w.sid[a["dual"]], "rep": a["rep"],
+                        "vec": [cq(x) for x in a["vec"]]} for a in specs]
+
+    def fresh(i):
+        a = specs[i]
+        if a["rep"] == "coef":
+            return api.GridFunction(sp[a["space"]], dual_space=sp[a["dual"]], coefficients=a["vec"].copy())
+        return api.GridFunction(sp[a["space"]], dual_space=sp[a["dual"]], projections=a["vec"].copy())
+
+    def gen(depth):
+        if depth == 0 or r.random() < 0.3:
+            return ["atom", int(r.integers(0, len(specs)))]
+        k = r.choice(["add", "sub", "neg", "scall", "scalr", "div"], p=[.35, .25, .1, .1, .1, .1])
+        if k in ("add", "sub"):
+            return [str(k), gen(depth - 1), gen(depth - 1)]
+        if k == "neg":
+            return ["neg", gen(depth - 1)]
+        return [str(k), int(r.integers(0, 6)), gen(depth - 1)]
+
+    def ev(e):
+        k = e[0]
+        if k == "atom":
+            return fresh(e[1])
+        if k == "add":
+            return ev(e[1]) + ev(e[2])
+        if k == "sub":
+            return ev(e[1]) - ev(e[2])
+        if k == "neg":
+            return -ev(e[1])
+        a = SCALARS[e[1]][1]
+        if k == "scall":
+            return a * ev(e[2])
+        if k == "scalr":
+            return ev(e[2]) * a
+        return ev(e[2]) / a
+
+    def gshow(e):
+        k = e[0]
+        if k == "atom":
+            return "f%d" % e[1]
+        if k in ("add", "sub"):
+            return "(%s %s %s)" % (gshow(e[1]), "+" if k == "add" else "-", gshow(e[2]))
+        if k == "neg":
+            return "(-%s)" % gshow(e[1])
+        if k == "scall":
+            return "(%s * %s)" % (SCALARS[e[1]][0], gshow(e[2]))
+        return "(%s %s %s)" % (gshow(e[2]), "*" if k == "scalr" else "/", SCALARS[e[1]][0])
+    for _ in range(n):
+        e = gen(3)
+        out["evaluations"] += 1
+        case = {"expr": e, "show": gshow(e)}
+        try:
+            g = ev(e)
+            case["result"] = "ok"
+            case["space"] = w.sid[[i for i, x in enumerate(sp) if x is g.space or x == g.space][0]]
+            case["coef"] = [cq(x) for x in np.asarray(g.coefficients)]
+        except Exception as ex:
+            case["result"] = type(ex).__name__
+        out["gf_cases"].append(case)
+
+
 def main():
     cfg = json.load(sys.stdin)
     thorough = cfg.get("strength") == "thorough"
-    out = {"cases": [], "pcases": [], "failures": [], "evaluations": 0, "hist": {}}
+    out = {"cases": [], "pcases": [], "gf_cases": [], "failures": [], "evaluations": 0, "hist": {}}
     try:
         w = World(rng(), thorough)
         out["env"] = w.env_json()
@@ -823,6 +900,8 @@ def main():
         discrete_programs(w, out, 1500 if thorough else 300, 4 if thorough else 3)
         blocked_checks(w, out)
         gridfun_checks(w, out, 60 if thorough else 20)
+        gf_correspondence(w, out, 150 if thorough else 60)
+        out["env"] = w.env_json()
     except Exception:
         out["crash"] = traceback.format_exc()
     # one failure per signature is enough for the verdict; keep counts
